@@ -206,7 +206,7 @@ struct MVal {
     lib_none: bool,
 }
 
-fn observe_maybe(em: &mut Em, name: &str, m: &MVal, sw: &Switches) {
+fn observe_maybe(em: &mut Em, name: &str, m: &MVal) {
     em.obs(name, show_maybe(&m.v), "maybe-print");
     match &m.v {
         Some(v) => {
@@ -214,13 +214,8 @@ fn observe_maybe(em: &mut Em, name: &str, m: &MVal, sw: &Switches) {
             em.label("obs:eq-source-just");
         }
         None => {
-            if m.lib_none && sw.avoid_none_eq_source {
-                em.obs(&format!("maybe.isNone({})", name), "true".into(), "is-none");
-                em.label("avoided:library-none-eq-source-none");
-            } else {
-                em.obs(&format!("{} == Maybe.None", name), "true".into(), "eq-source-none");
-                em.label(if m.lib_none { "obs:eq-source-none(library-made)" } else { "obs:eq-source-none(source-made)" });
-            }
+            em.obs(&format!("{} == Maybe.None", name), "true".into(), "eq-source-none");
+            em.label(if m.lib_none { "obs:eq-source-none(library-made)" } else { "obs:eq-source-none(source-made)" });
         }
     }
     em.obs(&format!("maybe.isJust({})", name), format!("{}", m.v.is_some()), "is-just");
@@ -452,7 +447,7 @@ pub fn render(case: &Case) -> Rendered {
                 } else if pushed_since_start {
                     remove_after_insert = true;
                 }
-                observe_maybe(&mut em, &m, &MVal { v, lib_none: true }, &case.sw);
+                observe_maybe(&mut em, &m, &MVal { v, lib_none: true });
             }
             (Kind::List, Op::Get(i)) => {
                 let m = em.fresh("m");
@@ -464,7 +459,7 @@ pub fn render(case: &Case) -> Rendered {
                 } else {
                     em.label("list:get-hit");
                 }
-                observe_maybe(&mut em, &m, &MVal { v, lib_none: true }, &case.sw);
+                observe_maybe(&mut em, &m, &MVal { v, lib_none: true });
             }
             (Kind::List, Op::Set(i, k)) if key_ok(*k) => {
                 if *i < 0 || *i as usize >= list.len() {
@@ -517,7 +512,7 @@ pub fn render(case: &Case) -> Rendered {
                 } else {
                     em.label("list:find-hit");
                 }
-                observe_maybe(&mut em, &m, &MVal { v, lib_none: true }, &case.sw);
+                observe_maybe(&mut em, &m, &MVal { v, lib_none: true });
             }
             (Kind::List, Op::Contains(k)) if key_ok(*k) => {
                 let hit = list.contains(&uni[*k]);
@@ -535,7 +530,7 @@ pub fn render(case: &Case) -> Rendered {
                     absent_lookup = true;
                     em.label("list:last-empty");
                 }
-                observe_maybe(&mut em, &m, &MVal { v, lib_none: true }, &case.sw);
+                observe_maybe(&mut em, &m, &MVal { v, lib_none: true });
             }
             // ------------------------------------------------------------------ dict
             (Kind::Dict, Op::Update(k, v)) if key_ok(*k) && val_ok(*v) => {
@@ -556,18 +551,14 @@ pub fn render(case: &Case) -> Rendered {
                 }
                 let dflt = case.vty.zero();
                 let od = v.clone().unwrap_or_else(|| dflt.clone());
-                observe_maybe(&mut em, &m, &MVal { v, lib_none: true }, &case.sw);
+                observe_maybe(&mut em, &m, &MVal { v, lib_none: true });
                 em.obs(&format!("maybe.orDefault({}, {}) == {}", m, dflt.lit_atom(), od.lit_atom()), "true".into(), "or-default");
             }
             (Kind::Dict, Op::Remove(k)) if key_ok(*k) => {
-                if case.sw.avoid_dict_remove_nonstr && *ety != Ty::Str {
-                    em.label("avoided:dict-remove-nonstr-key");
-                    continue;
-                }
                 em.stmt(&format!("dict.remove(c, {})", uni[*k].lit()));
                 if dict.remove(&uni[*k]).is_some() {
                     remove_after_insert = true;
-                    em.label("dict:remove-present");
+                    em.label(if *ety == Ty::Str { "dict:remove-present(str-key)" } else { "dict:remove-present(non-str-key)" });
                 } else {
                     em.label("dict:remove-absent");
                 }
@@ -639,7 +630,7 @@ pub fn render(case: &Case) -> Rendered {
                 match helper {
                     MHelper::Observe => {
                         em.stmt(&decl);
-                        observe_maybe(&mut em, &m, &mv, &case.sw);
+                        observe_maybe(&mut em, &m, &mv);
                         em.obs(&format!("maybe.isNone({})", m), format!("{}", mv.v.is_none()), "is-none");
                     }
                     MHelper::OrDefault(d) if key_ok(*d) => {
@@ -658,7 +649,7 @@ pub fn render(case: &Case) -> Rendered {
                         em.stmt(&format!("{} :: maybe.map({}, {})", r, m, map_src(f, ety, &out, uni)));
                         // maybe.map is written in Sylt: a None it returns is a source-made None
                         let rv = MVal { v: mv.v.as_ref().map(|x| map_eval(f, x, uni)), lib_none: false };
-                        observe_maybe(&mut em, &r, &rv, &case.sw);
+                        observe_maybe(&mut em, &r, &rv);
                     }
                     MHelper::AndThen(p) if pred_ok(p, ety, uni) => {
                         em.stmt(&decl);
@@ -672,14 +663,14 @@ pub fn render(case: &Case) -> Rendered {
                             pred_body(p, uni)
                         ));
                         let rv = MVal { v: mv.v.clone().filter(|x| pred_eval(p, x, uni)), lib_none: false };
-                        observe_maybe(&mut em, &r, &rv, &case.sw);
+                        observe_maybe(&mut em, &r, &rv);
                     }
                     MHelper::Flatten => {
                         em.stmt(&decl);
                         let r = em.fresh("m");
                         em.stmt(&format!("{} :: maybe.flatten(Maybe.Just {})", r, m));
                         // flatten(Just m) hands back m itself
-                        observe_maybe(&mut em, &r, &mv, &case.sw);
+                        observe_maybe(&mut em, &r, &mv);
                     }
                     _ => continue,
                 }
